@@ -52,3 +52,30 @@ Qed.
 
 Print Assumptions C04_owner_and_member_gates.
 Print Assumptions C04_single_owner_reachable.
+
+(* ---------- interleaved semantics (Model/Conc.v): every schedule of suspended requests, disconnects, time-outs ---------- *)
+From Coq Require Import List NArith.
+From NW Require Import Model.Conc Proofs.ConcDefs Proofs.ConcEv Proofs.ConcInv Proofs.ConcSmall Proofs.ConcSource Gen.ConcFlags.
+Import ListNotations.
+Local Open Scope N_scope.
+
+Theorem C04_conc_owner_is_member_always :
+  forall (cf : ccfg) (es : list ev) (ch : chan) (o : oid),
+    fixed cf ->
+    cmap (cg (cstate_after cf es)) ch = Some o ->
+    exists w : user,
+      owner (objs (cg (cstate_after cf es)) o) = Some w /\
+      In w (members (objs (cg (cstate_after cf es)) o)).
+Proof. exact conc_owner_is_member_always. Qed.
+
+Theorem C04_source_owner_is_member :
+  forall (fe fp : bool) (ms mc : N) (es : list ev) (ch : chan) (o : oid),
+    cmap (cg (cstate_after (src_cfg fe fp ms mc) es)) ch = Some o ->
+    exists w : user,
+      owner (objs (cg (cstate_after (src_cfg fe fp ms mc) es)) o) = Some w /\
+      In w (members (objs (cg (cstate_after (src_cfg fe fp ms mc) es)) o)).
+Proof. exact source_owner_is_member. Qed.
+
+Theorem C04_source_segment_layout :
+  forallb snd conc_source_shape = true.
+Proof. exact source_segment_layout. Qed.
